@@ -128,6 +128,7 @@ EXCEPTIONS = {
     "errors.DuplicateModules": ("XDuplicateModules", ["ent_id", "ent_id"]),
     "errors.MissingModule": ("XMissingModule", [""]),
     "TypeError": ("XTypeError", []),
+    "KeyError": ("XKeyError", ["KeyStr"]),
     "ValueError": ("XValueError", []),
     "RuntimeError": ("XRuntimeError", []),
     "NotImplementedError": ("XNotImplementedError", []),
@@ -303,6 +304,13 @@ class Fn(object):
             return bs, "(py_dict_%s %s)" % ("_".join(k.value for k in e.keys), " ".join(atoms))
         if isinstance(e, ast.DictComp):
             return self.dictcomp(e)
+        if isinstance(e, (ast.GeneratorExp, ast.ListComp)) and len(e.generators) == 1 and not e.generators[0].ifs \
+                and isinstance(e.generators[0].target, ast.Name):
+            g = e.generators[0]
+            bi, ai = self.iter_of(g.iter)
+            be, ae = self.expr(e.elt)
+            t = self.fresh()
+            return bi + [("bind", t, "py_mapM (fun %s => %sOk %s) %s" % (cname(g.target.id), self.bind_text(be), ae, ai))], t
         raise Unsupported("expression %s" % ast.dump(e)[:80])
 
     def attribute(self, e):
@@ -414,7 +422,7 @@ class Fn(object):
         f = e.func
         src = ast.unparse(f)
         # "...".format(...): evaluated for its effects, the text is not modelled
-        if isinstance(f, ast.Attribute) and f.attr == "format" and isinstance(f.value, ast.Constant):
+        if isinstance(f, ast.Attribute) and f.attr == "format" and isinstance(f.value, (ast.Constant, ast.Name)):
             bs = []
             for x in e.args:
                 b, _ = self.expr(x)
@@ -438,6 +446,19 @@ class Fn(object):
             return b, "tt"
         if src == "six.raise_from":
             return self.expr(e.args[0])
+        if src == "sum" and len(e.args) == 1 and isinstance(e.args[0], ast.GeneratorExp) \
+                and isinstance(e.args[0].elt, ast.Constant) and e.args[0].elt.value == 1 \
+                and len(e.args[0].generators) == 1 and not e.args[0].generators[0].ifs:
+            # sum(1 for _ in xs): the number of elements
+            b, a = self.iter_of(e.args[0].generators[0].iter)
+            return b, "(py_len_of %s)" % a
+        if src == "iter" and len(e.args) == 2 and isinstance(e.args[0], ast.Attribute) and e.args[0].attr == "next" \
+                and isinstance(e.args[1], ast.Constant) and e.args[1].value is None:
+            # iter(tar.next, None): the members in order, until next() returns None
+            b, a = self.expr(e.args[0].value)
+            return b, "(tar_iter %s)" % a
+        if src in self.spec.get("funcs", {}):
+            return self.apply(self.spec["funcs"][src], [], e, [])
         if src in ("six.iteritems", "six.itervalues"):
             return self.expr(e.args[0])
         if src == "Seq" and len(e.args) == 1 and isinstance(e.args[0], ast.Constant) and e.args[0].value == "":
@@ -666,6 +687,9 @@ class Fn(object):
                             add(x.id)
                     elif isinstance(t, ast.Subscript) and isinstance(t.value, ast.Name):
                         add(t.value.id)
+                    elif isinstance(t, ast.Attribute) and isinstance(t.value, ast.Name) \
+                            and (t.value.id, t.attr) in self.spec.get("setattrs", {}):
+                        add(t.value.id)
                     elif isinstance(t, ast.Attribute) and isinstance(t.value, ast.Name) and t.value.id == "self":
                         add("self_" + t.attr)
                     elif isinstance(t, ast.Attribute) and isinstance(t.value, ast.Name) and t.value.id == "cls" \
@@ -685,6 +709,8 @@ class Fn(object):
                 if m:
                     add(m)
                 v = s.value
+                if isinstance(v, (ast.Yield, ast.YieldFrom)):
+                    add("yield_acc")
                 if (isinstance(v, ast.Call) and isinstance(v.func, ast.Attribute) and v.func.attr == "append"
                         and isinstance(v.func.value, ast.Attribute) and isinstance(v.func.value.value, ast.Name)):
                     add(v.func.value.value.id)
@@ -709,6 +735,12 @@ class Fn(object):
             elif isinstance(s, ast.Try):
                 for n in self.assigned(s.body, cur):
                     add(n)
+            elif isinstance(s, ast.With):
+                for item in s.items:
+                    if isinstance(item.optional_vars, ast.Name):
+                        add(item.optional_vars.id)
+                for n in self.assigned(s.body, cur):
+                    add(n)
         return out
 
     def mutating_call(self, v):
@@ -724,8 +756,12 @@ class Fn(object):
         s = stmts[-1]
         if isinstance(s, (ast.Return, ast.Raise)):
             return True
+        if isinstance(s, ast.Expr) and isinstance(s.value, ast.Call) and ast.unparse(s.value.func) == "six.raise_from":
+            return True
         if isinstance(s, ast.If):
             return self.terminates(s.body) and self.terminates(s.orelse)
+        if isinstance(s, ast.With):
+            return self.terminates(s.body)
         return False
 
     def raise_term(self, exc):
@@ -795,6 +831,10 @@ class Fn(object):
             return cont(defined)
         if isinstance(s, ast.Pass):
             return cont(defined)
+        if isinstance(s, ast.Return) and self.spec.get("generator"):
+            if s.value is not None:
+                raise Unsupported("return with a value in a generator")
+            return retwrap("yield_acc")
         if isinstance(s, ast.Return):
             if s.value is None:
                 return retwrap(self.ret("tt"))
@@ -819,6 +859,19 @@ class Fn(object):
             return self.whilestmt(s, defined, cont)
         if isinstance(s, ast.Try):
             return self.trystmt(s, defined, cont, retwrap)
+        if isinstance(s, ast.With):
+            # `with <resource> as x:` — x is bound to what the (configured) call returns; leaving the block
+            # releases the resource, which the model does not represent; names bound inside stay visible
+            text, d = "", set(defined)
+            for item in s.items:
+                b, a = self.expr(item.context_expr)
+                text += self.bind_text(b)
+                if item.optional_vars is not None:
+                    if not isinstance(item.optional_vars, ast.Name):
+                        raise Unsupported("with target")
+                    text += "let %s := %s in\n" % (cname(item.optional_vars.id), a)
+                    d.add(item.optional_vars.id)
+            return text + self.block(list(s.body) + list(rest), d, fall, retwrap)
         raise Unsupported("statement %s" % type(s).__name__)
 
     def assign(self, s, defined, cont):
@@ -848,6 +901,16 @@ class Fn(object):
             names = [x.id for x in t.elts]
             pat = "'(" + ", ".join(cname(n) for n in names) + ")"
             return self.bind_text(b) + "let %s := %s in\n" % (pat, a) + cont(defined | set(names))
+        if isinstance(t, ast.Subscript) and isinstance(t.value, ast.Name) and t.value.id in self.dictvars:
+            bk, ak = self.expr(t.slice)
+            x = cname(t.value.id)
+            return self.bind_text(b) + self.bind_text(bk) + "let %s := dict_set %s %s %s %s in\n" % (
+                x, self.dictvars[t.value.id], x, ak, a) + cont(defined)
+        if isinstance(t, ast.Attribute) and isinstance(t.value, ast.Name) \
+                and (t.value.id, t.attr) in self.spec.get("setattrs", {}):
+            x = cname(t.value.id)
+            return self.bind_text(b) + "let %s := %s %s %s in\n" % (x, self.spec["setattrs"][(t.value.id, t.attr)], x, a) \
+                + cont(defined)
         if isinstance(t, ast.Subscript) and isinstance(t.value, ast.Name) and isinstance(t.slice, ast.Constant) \
                 and isinstance(t.slice.value, str) and t.slice.value.isidentifier():
             x = cname(t.value.id)
@@ -862,6 +925,15 @@ class Fn(object):
 
     def exprstmt(self, s, defined, cont):
         v = s.value
+        if isinstance(v, ast.Yield) and self.spec.get("generator") and v.value is not None:
+            b, a = self.expr(v.value)
+            return self.bind_text(b) + "let yield_acc := yield_acc ++ [%s] in\n" % a + cont(defined)
+        if isinstance(v, ast.YieldFrom) and self.spec.get("generator"):
+            b, a = self.expr(v.value)
+            return self.bind_text(b) + "let yield_acc := yield_acc ++ %s in\n" % a + cont(defined)
+        if isinstance(v, ast.Call) and ast.unparse(v.func) == "six.raise_from":
+            b, t = self.raise_term(v)
+            return self.bind_text(b) + "Err %s" % t
         if isinstance(v, ast.Call) and ast.unparse(v.func) == "warnings.warn":
             w = v.args[0]
             if ast.unparse(w.func) == "errors.UnusedModules" and len(w.args) == 1 and isinstance(w.args[0], ast.Starred):
@@ -1018,7 +1090,13 @@ class Fn(object):
         if self.warns:
             pre = "let warnings_acc := [] in\n"
             defined.add("warnings_acc")
-        if self.spec.get("init"):
+        if self.spec.get("generator"):
+            pre += "let yield_acc := [] in\n"
+            defined.add("yield_acc")
+        if self.spec.get("generator"):
+            def fall(d):
+                return "Ok yield_acc"
+        elif self.spec.get("init"):
             fields = self.spec["init"]
 
             def fall(d):
